@@ -10,8 +10,10 @@ from vlib import env, hyp, par
 from vlib.bucket import exc_bucket, exc_text
 from vlib.run import Part, h, sig_matches
 
+# includes names with upper-case letters: the map must hold the names as
+# written
 ATTR_NAMES = ["class", "id", "style", "lang", "title", "data-x", "colspan",
-              "rowspan", "align"]
+              "rowspan", "align", "colSpan", "Data-Y", "ID2", "xml:Lang"]
 ATTR_VALUES = ["a", "b1", "x-y", "k_2", "9", "foo.bar", "A~z", "2"]
 SPECIAL_TAGS = {"pre", "nowiki", "section", "noinclude", "includeonly",
                 "onlyinclude"}
@@ -242,7 +244,8 @@ def enum_tables():
                             for ci in range(c):
                                 k += 1
                                 cells.append({
-                                    "attrs": ([["class", ATTR_VALUES[k % 8]]]
+                                    "attrs": ([[ATTR_NAMES[k % len(ATTR_NAMES)],
+                                                ATTR_VALUES[k % 8]]]
                                               if with_attrs and k % 2 else []),
                                     "content": labels[k % len(labels)]})
 
